@@ -132,7 +132,7 @@ func TableHeaderFromBytes(data []byte) (TableHeader, error) {
 	th.TableID = data[0]
 	th.SectionSyntaxIndicator = data[1]&0x80 != 0
 	th.PrivateIndicator = data[1]&0x40 != 0
-	th.SectionLength = uint16(data[1]&0x03 /* 0000 0011 */)<<8 | uint16(data[2])
+	th.SectionLength = uint16(data[1]&0x0F /* 0000 1111 */)<<8 | uint16(data[2]) // 12 bit field
 
 	return th, nil
 }
@@ -152,7 +152,7 @@ func (th TableHeader) Data() []byte {
 	// set reserved bits to 11
 	data[1] |= 0x30 // 0011 0000
 
-	data[1] |= byte(th.SectionLength>>8) & 0x03 // 0000 0011
+	data[1] |= byte(th.SectionLength>>8) & 0x0F // 0000 1111, section_length is a 12 bit field
 	data[2] = byte(th.SectionLength)
 
 	return data
